@@ -46,7 +46,7 @@ BAT, INV = 9, 8
 
 def budget(tier: str) -> dict[str, Any]:
     if tier == "quick":
-        return {"shards": 8, "cases": 100}
+        return {"shards": 8, "cases": 400}
     return {"shards": 32, "cases": 2500, "hashseeds": [0, 1, 2, 3]}
 
 
